@@ -413,11 +413,12 @@ pub fn run(report: &Report, thorough: bool) -> Evidence {
         let n3 = syms.len() * syms.len() * syms.len();
         let hists = AtomicU64::new(0);
         par_for(
-            n3 * 2,
+            n3 * if thorough { 2 } else { 1 },
             1,
             |w| scratch_xdg(&format!("c17s4-{}", w)),
             |xdg, idx| {
-                let english = idx % 2 == 1;
+                // (quick tier: English off only)
+                let (english, j) = if thorough { (idx % 2 == 1, idx / 2) } else { (false, idx) };
                 let mut o_on = Opts::fixed(&probhat(), &real_db(), xdg);
                 o_on.fsugg = true;
                 o_on.kar = true;
@@ -432,7 +433,6 @@ pub fn run(report: &Report, thorough: bool) -> Evidence {
                 on.with_pre = false;
                 off.with_pre = false;
                 let mut p = Pair { on, off, avro: &avro, report, samples: &samples, alphabet: &[], need_quote: false, text: String::new(), aux_stack: vec![], no_value: vec![], compared: 0, curled: 0, events: 0 };
-                let j = idx / 2;
                 let first = [j / (syms.len() * syms.len()), (j / syms.len()) % syms.len(), j % syms.len()];
                 // enumerate all histories that start with `first` (length 3 ..= maxlen) by counting in base |syms|
                 let mut stack: Vec<Vec<usize>> = vec![first.to_vec()];
